@@ -504,11 +504,22 @@ func (obj *Flavor) LoadForm() slip.Object {
 		} else {
 			ivs[i] = ksym
 		}
-		if _, has := obj.methods[":"+k]; has {
-			gets = append(gets, ksym)
+	}
+	// The gettable and settable options without names stand for all the
+	// variables, the inherited ones included.
+	vnames := make([]string, 0, len(obj.defaultVars))
+	for k := range obj.defaultVars {
+		if k != "self" {
+			vnames = append(vnames, k)
 		}
-		if _, has := obj.methods[":set-"+k]; has {
-			sets = append(sets, ksym)
+	}
+	sort.Strings(vnames)
+	for _, k := range vnames {
+		if obj.definesPrimary(":" + k) {
+			gets = append(gets, slip.Symbol(k))
+		}
+		if obj.definesPrimary(":set-" + k) {
+			sets = append(sets, slip.Symbol(k))
 		}
 	}
 	var inh slip.List
@@ -553,14 +564,14 @@ func (obj *Flavor) LoadForm() slip.Object {
 		}
 	}
 	if 0 < len(gets) {
-		if len(gets) == len(keys) {
+		if len(gets) == len(vnames) {
 			df = append(df, slip.Symbol(":gettable-instance-variables"))
 		} else {
 			df = append(df, append(slip.List{slip.Symbol(":gettable-instance-variables")}, gets...))
 		}
 	}
 	if 0 < len(sets) {
-		if len(sets) == len(keys) {
+		if len(sets) == len(vnames) {
 			df = append(df, slip.Symbol(":settable-instance-variables"))
 		} else {
 			df = append(df, append(slip.List{slip.Symbol(":settable-instance-variables")}, sets...))
@@ -604,6 +615,19 @@ func (obj *Flavor) LoadForm() slip.Object {
 		df = append(df, slip.List{slip.Symbol(":documentation"), slip.String(obj.docs)})
 	}
 	return df
+}
+
+// definesPrimary returns true if the flavor itself, not one of the flavors it
+// inherits from, defines the primary method.
+func (obj *Flavor) definesPrimary(method string) bool {
+	if m := obj.methods[method]; m != nil {
+		for _, c := range m.Combinations {
+			if c.From == obj && c.Primary != nil {
+				return true
+			}
+		}
+	}
+	return false
 }
 
 func (obj *Flavor) inheritedVar(k string, v slip.Object) bool {
